@@ -96,7 +96,21 @@ func GenHostileRoute(r *rand.Rand, l *Lab, denom string) (spec.Route, string) {
 		rt := spec.Route{Kind: "hyp", Domain: 1, TokenID: tok, Recipient: evmAddr32(r), GasLimit: &zero,
 			MaxFee: &spec.Coin{Denom: world.USDN, Amount: "0"}}
 		cls := ""
-		switch r.Intn(18) {
+		switch r.Intn(20) {
+		case 18, 19:
+			// optional fields at the top of their range, with each kind of hook: the paymaster
+			// multiplies the gas limit by its price and exchange rate
+			cls = "huge-gas"
+			g := pow2(uint(60 + r.Intn(196))).String()
+			rt.GasLimit = &g
+			switch r.Intn(3) {
+			case 0:
+				rt.HookID, cls = w.Hyp.IGP.Bytes(), "huge-gas+igp-hook"
+			case 1:
+				rt.HookID = w.Hyp.NoopHook.Bytes()
+			}
+			rt.Domain = w.Hyp.IGPDomains[r.Intn(len(w.Hyp.IGPDomains))]
+			rt.MaxFee = &spec.Coin{Denom: world.USDN, Amount: []string{"0", "1000000", MaxU256.String()}[r.Intn(3)]}
 		case 14:
 			cls = "long-recipient"
 			rt.Recipient = append(evmAddr32(r), byte(1+r.Intn(200)))
